@@ -57,6 +57,18 @@ func runFlow(c *Ctx) {
 					continue
 				}
 				oneFlow(c, d, vec, p, 0)
+				if d <= 2 {
+					// the status passed to Exit is irrelevant to the flow: 0, negative and > 255 behave like any other
+					hasExit := false
+					for _, b := range vec {
+						hasExit = hasExit || b == ref.HExits
+					}
+					if hasExit {
+						for xk := 1; xk < len(exitKinds); xk++ {
+							oneFlowX(c, d, vec, p, 0, xk)
+						}
+					}
+				}
 				if d <= 2 && p == 0 {
 					// the kind of value a panicking hook raises is irrelevant: it is re-raised unchanged
 					hasPanic := false
@@ -79,7 +91,7 @@ func replayFlow(c *Ctx, cs Case) {
 	for _, x := range cs["vec"].([]interface{}) {
 		vec = append(vec, int(x.(float64)))
 	}
-	oneFlow(c, cInt(cs, "depth"), vec, cInt(cs, "policy"), cInt(cs, "panic_kind"))
+	oneFlowX(c, cInt(cs, "depth"), vec, cInt(cs, "policy"), cInt(cs, "panic_kind"), cInt(cs, "exit_kind"))
 }
 
 // codedErr is a user error type that happens to expose the methods of several exit-code conventions; a hook panicking
@@ -112,8 +124,27 @@ func panicValue(kind int, i int, name string) interface{} {
 	return errors.New("boom-" + name)
 }
 
-func oneFlow(c *Ctx, d int, vec []int, pol int, pk int) {
-	if !c.Begin("flow", fmt.Sprint(d), fmt.Sprint(vec), fmt.Sprint(pol), fmt.Sprint(pk)) {
+// exitKinds: the status a hook passes to cli.Exit. Kind 0 gives every hook its own status (so the oracle can tell
+// whose Exit won); the others give all hooks the same unusual status: 0 (an Exit like any other: the remaining hooks
+// are skipped, the Afters run once, the process-exit function is called with 0), a negative one and one above 255.
+var exitKinds = []string{"10+hook index", "0", "-1", "256"}
+
+func exitCode(xk, i int) int {
+	switch xk {
+	case 1:
+		return 0
+	case 2:
+		return -1
+	case 3:
+		return 256
+	}
+	return 10 + i
+}
+
+func oneFlow(c *Ctx, d int, vec []int, pol int, pk int) { oneFlowX(c, d, vec, pol, pk, 0) }
+
+func oneFlowX(c *Ctx, d int, vec []int, pol int, pk int, xk int) {
+	if !c.Begin("flow", fmt.Sprint(d), fmt.Sprint(vec), fmt.Sprint(pol), fmt.Sprint(pk), fmt.Sprint(xk)) {
 		return
 	}
 	// hook i: 0..d = Before of level i; d+1 = Action; d+2+j = After of level d-j
@@ -150,7 +181,7 @@ func oneFlow(c *Ctx, d int, vec []int, pol int, pk int) {
 				m[names[i]] = 1
 			}
 		default:
-			return func() { log = append(log, name); cli.Exit(10 + i) }
+			return func() { log = append(log, name); cli.Exit(exitCode(xk, i)) }
 		}
 	}
 	app := cli.App("app", "")
@@ -192,13 +223,13 @@ func oneFlow(c *Ctx, d int, vec []int, pol int, pk int) {
 			log[i] = strings.TrimSuffix(e, "'")
 		}
 		if stale && c.On("C05") {
-			c.Violation("C05", fmt.Sprintf("flow depth=%d vec=%s policy=%d%s (second Run on the same instance, hooks re-assigned before it)", d, describeVec(names, vec), pol, pkText(pk)),
-				Case{"depth": d, "vec": append([]int{}, vec...), "policy": pol, "panic_kind": pk}, "the second Run calls the hooks assigned for it", "it called hooks of the first Run: "+strings.Join(log, " "))
+			c.Violation("C05", fmt.Sprintf("flow depth=%d vec=%s policy=%d%s (second Run on the same instance, hooks re-assigned before it)", d, describeVec(names, vec), pol, pkText(pk)+xkText(xk)),
+				Case{"depth": d, "vec": append([]int{}, vec...), "policy": pol, "panic_kind": pk, "exit_kind": xk}, "the second Run calls the hooks assigned for it", "it called hooks of the first Run: "+strings.Join(log, " "))
 		}
 		if strings.Join(log, " ") != first || o2.Returned != o.Returned || o2.Panicked != o.Panicked || fmt.Sprint(o2.Exits) != fmt.Sprint(o.Exits) {
 			if c.On("C05") {
-				c.Violation("C05", fmt.Sprintf("flow depth=%d vec=%s policy=%d%s (second Run on the same instance)", d, describeVec(names, vec), pol, pkText(pk)),
-					Case{"depth": d, "vec": append([]int{}, vec...), "policy": pol, "panic_kind": pk}, fmt.Sprintf("as the first run: calls=[%s] returned=%v panicked=%v exits=%v", first, o.Returned, o.Panicked, o.Exits),
+				c.Violation("C05", fmt.Sprintf("flow depth=%d vec=%s policy=%d%s (second Run on the same instance)", d, describeVec(names, vec), pol, pkText(pk)+xkText(xk)),
+					Case{"depth": d, "vec": append([]int{}, vec...), "policy": pol, "panic_kind": pk, "exit_kind": xk}, fmt.Sprintf("as the first run: calls=[%s] returned=%v panicked=%v exits=%v", first, o.Returned, o.Panicked, o.Exits),
 					fmt.Sprintf("calls=[%s] returned=%v panicked=%v exits=%v", strings.Join(log, " "), o2.Returned, o2.Panicked, o2.Exits))
 			}
 		}
@@ -232,7 +263,7 @@ func oneFlow(c *Ctx, d int, vec []int, pol int, pk int) {
 			bad = append(bad, "end")
 		}
 	case exp.End == ref.EndExit:
-		if !(len(o.Exits) == 1 && o.Exits[0] == 10+exp.By && !o.Returned && !o.Panicked) {
+		if !(len(o.Exits) == 1 && o.Exits[0] == exitCode(xk, exp.By) && !o.Returned && !o.Panicked) {
 			bad = append(bad, "end")
 		}
 	case exp.End == ref.EndPanic:
@@ -241,12 +272,12 @@ func oneFlow(c *Ctx, d int, vec []int, pol int, pk int) {
 		}
 	}
 	obsEnd = fmt.Sprintf("returned=%v err=%v exits=%v panicked=%v panicval=%v", o.Returned, o.Err, o.Exits, o.Panicked, o.PanicVal)
-	cs := Case{"depth": d, "vec": append([]int{}, vec...), "policy": pol, "hooks": names, "panic_kind": pk, "panic_value": panicKinds[pk]}
+	cs := Case{"depth": d, "vec": append([]int{}, vec...), "policy": pol, "hooks": names, "panic_kind": pk, "panic_value": panicKinds[pk], "exit_kind": xk, "exit_status": exitKinds[xk]}
 	if c.WantSample(fmt.Sprintf("depth%d", d)) && fails > 0 {
 		c.Sample(fmt.Sprintf("depth%d", d), Case{"depth": d, "vector": describeVec(names, vec), "policy": pol, "observed_calls": strings.Join(log, " "), "observed_end": obsEnd})
 	}
 	if len(bad) > 0 && c.On("C05") {
-		c.Violation("C05", fmt.Sprintf("flow depth=%d vec=%s policy=%d%s", d, describeVec(names, vec), pol, pkText(pk)), cs,
+		c.Violation("C05", fmt.Sprintf("flow depth=%d vec=%s policy=%d%s", d, describeVec(names, vec), pol, pkText(pk)+xkText(xk)), cs,
 			fmt.Sprintf("calls=[%s] end=%s by=%s", strings.Join(exp.Log, " "), exp.EndName(), hookName(names, exp.By)),
 			fmt.Sprintf("calls=[%s] %s (mismatch: %s)", strings.Join(log, " "), obsEnd, strings.Join(bad, ",")))
 	}
@@ -257,6 +288,13 @@ func pkText(pk int) string {
 		return ""
 	}
 	return " panic-value=" + panicKinds[pk]
+}
+
+func xkText(xk int) string {
+	if xk == 0 {
+		return ""
+	}
+	return " exit-status=" + exitKinds[xk]
 }
 
 func hookName(names []string, i int) string {
